@@ -1,6 +1,8 @@
 """C16 — Motorola TMS / ARS: length prefix and field symmetry, shape-seeded (see sa/shapes.py)."""
 from __future__ import annotations
 
+import ast
+
 from sa.bitabs import ABits, ACond, AEnum, AInt, AObj, AOpq, Abort, F, Interp, PartialRaise, PathRaise, explore
 from sa.model import AnalysisError, EnumMember
 from sa.shapes import Symboliser, bits_of, compare_fields, explore_or_blame, hex_seeds, shape_of, wire_probe
@@ -67,6 +69,21 @@ def run(ctx):
     ctx.require("frame/length-prefix", 7)
 
 
+def ctor_flags(repo, ci):
+    """names of the boolean constructor parameters (annotated bool, with a default) that are stored under their own name"""
+    init = repo.find_method(ci, "__init__")
+    if init is None:
+        return []
+    a = init.node.args
+    params = a.posonlyargs + a.args
+    defaults = [None] * (len(params) - len(a.defaults)) + list(a.defaults)
+    out = []
+    for p_, d_ in zip(params, defaults):
+        if d_ is not None and p_.annotation is not None and ast.unparse(p_.annotation) == "bool":
+            out.append(p_.arg)
+    return out
+
+
 def analyse(ctx, repo, ci, fb, raw, fam, concrete=()):
     I = Interp(repo)
     I.exact_enum_folding = True   # FailureReason folds undefined values: decided exactly over the 7 value bits
@@ -127,6 +144,26 @@ def analyse(ctx, repo, ci, fb, raw, fam, concrete=()):
         nf, bad = compare_fields(I, sy, o2, wire)
         n_fields = max(n_fields, nf)
         bad_f += bad
+        # a boolean the message is BUILT from (a constructor parameter) must survive the round trip for both of its values: a
+        # flag that the writer does not transmit in this shape parses back as one constant whatever it was
+        wire_atoms = set()
+        for b_ in I.simp_bits(wire.items):
+            if isinstance(b_, F):
+                wire_atoms.update(b_.atoms())
+        for pname in ctor_flags(repo, ci):
+            s_ = sy.fields.get(pname)
+            if not (isinstance(s_, AInt) and s_.isbool and len(s_.bits) == 1):
+                continue
+            sb_ = I.simp(s_.bits[0])
+            if not isinstance(sb_, F) or sb_.is_const or set(sb_.atoms()) & wire_atoms:
+                continue
+            got_ = o2.attrs.get(pname)
+            if isinstance(got_, AInt) and got_.ext is None:
+                gb_ = I.simp_bits(got_.bits)
+                if all(isinstance(x, F) and x.is_const for x in gb_):
+                    got_ = any(x.c for x in gb_)
+            if got_ is True or got_ is False:
+                bad_f.append(f"{pname}: the constructor flag is not transmitted in this shape — both of its values parse back as {got_}")
         if not (isinstance(wire2, ABits) and I.simp_bits(wire2.items) == I.simp_bits(wire.items)):
             d = sorted({i // 8 for i, (a, b) in enumerate(zip(I.simp_bits(wire2.items), I.simp_bits(wire.items))) if a != b}) if isinstance(wire2, ABits) else []
             bad_r.append(f"octets {d[:8]} differ (lengths {len(wire2.items) // 8 if isinstance(wire2, ABits) else '?'}/{len(wire.items) // 8})")
